@@ -41,7 +41,18 @@ func convertObjectToASTNode(obj object.Object) ast.Node {
 	// A function called during the expansion can return its integer parameter as a live register (or a reference).
 	switch obj := object.Value(obj).(type) {
 	case object.Integer:
-		if obj.Value < 0 && obj.Value != math.MinInt64 {
+		if obj.Value == math.MinInt64 {
+			// The literal -9223372036854775808 reads back as a prefix minus on a FLOAT (the digits alone overflow an
+			// integer): what is printed for the quoted tree would not parse back to it. -9223372036854775807 - 1 does,
+			// and evaluates to the same integer.
+			l := convertObjectToASTNode(object.Integer{Value: math.MinInt64 + 1})
+			one := ast.IntegerLiteral{Val: 1}
+			one.Token = token.Intern(token.INT, "1")
+			r := ast.InfixExpression{Left: l, Right: &one}
+			r.Token = token.ByType(token.MINUS)
+			return &r
+		}
+		if obj.Value < 0 {
 			// What the parser makes of -5: a prefix minus on 5. A literal whose text starts with '-' printed as
 			// v--5 after a binary minus (read back as v-- then 5), and the tree differed from its own source text.
 			r := ast.IntegerLiteral{Val: -obj.Value}
